@@ -4,6 +4,7 @@ import (
 	"bytes"
 	"fmt"
 	"testing/fstest"
+	"time"
 
 	"github.com/traefik/yaegi/stdlib"
 )
@@ -61,4 +62,72 @@ func verifImportThenTypeError() (string, error) {
 	}
 	_, err := i.Eval("package main\nimport \"lib\"\nfunc main() { var s string = lib.X; println(s) }")
 	return out.String(), err
+}
+
+func init() {
+	// recover() called through an intermediate interpreted frame returns nil and does not stop the panic
+	verifProtocolScenarios = append(verifProtocolScenarios, verifScenario{"C06/interp._recover/*", func() (bool, string) {
+		got, err := verifOutput(`package main
+import "fmt"
+func helper() { r := recover(); fmt.Println("helper recovered", r) }
+func f() {
+	defer func() { helper() }()
+	panic("boom")
+}
+func main() {
+	defer func() { fmt.Println("main recovered", recover()) }()
+	f()
+	fmt.Println("not reached")
+}`)
+		want := "helper recovered <nil>\nmain recovered boom\n"
+		return got != want || err != nil, fmt.Sprintf("output %q (err %v), compiled Go prints %q", got, err, want)
+	}})
+}
+
+func init() {
+	// `defer panic(v)` is deferred like any other call: the body completes first
+	verifProtocolScenarios = append(verifProtocolScenarios, verifScenario{"C06/interp._panic/*", func() (bool, string) {
+		got, err := verifOutput(`package main
+import "fmt"
+func f() {
+	defer fmt.Println("deferred 1")
+	defer panic("late")
+	fmt.Println("body")
+}
+func main() {
+	defer func() { fmt.Println("recovered", recover()) }()
+	f()
+}`)
+		want := "body\ndeferred 1\nrecovered late\n"
+		return got != want || err != nil, fmt.Sprintf("output %q (err %v), compiled Go prints %q", got, err, want)
+	}})
+}
+
+func init() {
+	// a deferred closure held in a variable: runCfg keeps the frame mutex locked while it runs the deferred
+	// calls, and the function value made by getFunc locks the frame it was created in when it returns
+	verifProtocolScenarios = append(verifProtocolScenarios, verifScenario{"C06/interp.runCfg/calls:recover/lock:*", func() (bool, string) {
+		type res struct {
+			out string
+			err error
+		}
+		done := make(chan res, 1)
+		go func() {
+			out, err := verifOutput(`package main
+import "fmt"
+func main() {
+	h := func() { fmt.Println("recovered", recover()) }
+	defer h()
+	panic("boom")
+}`)
+			done <- res{out, err}
+		}()
+		want := "recovered boom\n"
+		select {
+		case r := <-done:
+			return r.out != want || r.err != nil, fmt.Sprintf("output %q (err %v), compiled Go prints %q", r.out, r.err, want)
+		case <-time.After(5 * time.Second):
+			return true, fmt.Sprintf("Eval does not return within 5s (self-deadlock on the frame mutex); compiled Go prints %q", want)
+		}
+	}})
 }
